@@ -43,21 +43,10 @@ impl Py {
         }
         match self {
             Py::None => "null".into(),
-            Py::Bool(b) => num(if *b { "1" } else { "0" }),
+            Py::Bool(b) => format!("(bool {})", if *b { 1 } else { 0 }),
             Py::Int(i) => num(&i.to_string()),
-            Py::Float(f) => {
-                if f.is_nan() {
-                    format!("(word {})", hex_str("NaN"))
-                } else if f.is_infinite() {
-                    if *f > 0.0 {
-                        format!("(word {})", hex_str("inf"))
-                    } else {
-                        format!("(negword {})", hex_str("inf"))
-                    }
-                } else {
-                    num(&f.to_string())
-                }
-            }
+            // NaN / ±inf are refused by py_to_sqlvalue and never reach the SQL text
+            Py::Float(f) => num(&f.to_string()),
             Py::Str(s) => format!("(str {})", hex_str(s)),
         }
     }
@@ -95,6 +84,7 @@ def enc(v):
 def same(a, b):
     if a is None or b is None: return a is None and b is None
     if isinstance(a, str) != isinstance(b, str): return False
+    if isinstance(a, bool) != isinstance(b, bool): return False
     if isinstance(a, float) and isinstance(b, float) and math.isnan(a) and math.isnan(b): return True
     return a == b
 
@@ -466,19 +456,23 @@ fn main() {
         "SELECT \"?\", ?", "SELECT 1 -- ?\n, ?", "SELECT ?-?", "SELECT a?", "SELECT ? ?", "SELECT ??", "UPDATE t SET b=? WHERE a=?", "SELECT 'it''s ?', ?",
     ];
     let mut echo_calls: Vec<Call> = vec![];
+    let mut text_calls: Vec<Call> = vec![];
+    let mut text_bound: Vec<String> = vec![];
     for i in 0..args.n(2500, 40000) {
         let mut r = rng.fork();
         let sql = *r.pick(&templates);
-        let k = sql.matches('?').count();
-        let vals: Vec<Py> = (0..k).map(|_| gen_py(&mut r, true)).collect();
+        // number of placeholders as `bind_parameters` counts them (not every `?` character)
+        let k: usize = model.ask(&format!("count {}", hex_str(sql))).parse().expect("model: count");
+        let vals: Vec<Py> = (0..k).map(|_| gen_py(&mut r, false)).collect();
         let vs = format!("({})", vals.iter().map(|x| x.pval()).collect::<Vec<_>>().join(" "));
         let bound = unhex_str(&model.ask(&format!("substitute {} {}", hex_str(sql), vs))).unwrap_or_default();
-        let safe = model.ask(&format!("safe {} {}", hex_str(sql), vs)) == "1";
         rep.case(&format!("text {} {}", sql, vs), vals.iter().any(|v| matches!(v, Py::Str(s) if !s.is_empty()) || matches!(v, Py::Int(i) if *i < 0) || matches!(v, Py::Float(_))));
-        rep.count(if safe { "text_bindSafe" } else { "text_not_bindSafe" });
+        rep.count(if k == sql.matches('?').count() { "text_all_marks_are_placeholders" } else { "text_with_question_mark_in_literal_or_comment" });
         if i < 2 {
-            rep.sample(json!({"kind": "text", "sql": sql, "values": format!("{:?}", vals), "bound": bound, "bindSafe": safe}));
+            rep.sample(json!({"kind": "text", "sql": sql, "values": format!("{:?}", vals), "bound": bound}));
         }
+        text_calls.push(Call { sql: format!("{} -- text {}", sql, i), params: Some(vals.clone()) });
+        text_bound.push(format!("{} -- text {}", bound, i));
         // real lexer on the bound text vs model scan
         let b2 = bound.clone();
         let real_toks = std::panic::catch_unwind(move || Lexer::new(&b2).tokenize()).unwrap_or_else(|_| Err(vibesql_parser::LexerError { message: "panic".into(), position: 0 }));
@@ -488,11 +482,11 @@ fn main() {
             (Ok(t), Some(p)) => {
                 if coarse_real(t) != p {
                     rep.fail(FailKind::ModelDiff, None, "scanner: model pieces and Lexer tokens disagree on a bound text", &format!("text: {:?}\ncode: {:?}\nmodel: {}", bound, t, m_scan));
-                } else if safe {
+                } else {
                     // direct oracle (T2 on the real lexer): tokens of the bound text = pieces of the SQL with the holes filled
                     let filled = pieces_upper(&model.ask(&format!("filled {} {}", hex_str(sql), vs)));
                     if filled.as_ref() != Some(&coarse_real(t)) {
-                        rep.fail(FailKind::Oracle, None, "binding changed the structure of the statement although every placeholder is in code position", &format!("sql: {:?}\nvalues: {:?}\nbound: {:?}\ntokens: {:?}\nexpected pieces: {:?}", sql, vals, bound, t, filled));
+                        rep.fail(FailKind::Oracle, None, "binding changed the structure of the statement", &format!("sql: {:?}\nvalues: {:?}\nbound: {:?}\ntokens: {:?}\nexpected pieces: {:?}", sql, vals, bound, t, filled));
                     }
                 }
             }
@@ -512,6 +506,18 @@ fn main() {
         }
     }
     // boundary values read back
+    // integers at the type boundaries of py_to_sqlvalue (i16 / u16 / i32 / u32 / i64) and their neighbours
+    let mut bints: Vec<i64> = vec![];
+    for b in [1i64 << 15, 1 << 16, 1 << 31, 1 << 32] {
+        for d in [-2i64, -1, 0, 1, 2] {
+            bints.push(b + d);
+            bints.push(-b + d);
+        }
+    }
+    bints.extend([40000, 50000, 65535, -40000, 3_000_000_000, -3_000_000_000, i64::MAX - 1, i64::MIN + 2]);
+    for (j, b) in bints.iter().enumerate() {
+        echo_calls.push(Call { sql: format!("SELECT ? -- int boundary {}", j), params: Some(vec![Py::Int(*b)]) });
+    }
     for (j, v) in [Py::Int(i64::MAX), Py::Int(i64::MIN), Py::Int(i64::MIN + 1), Py::Int(-1), Py::Int(32768), Py::Int(-32769), Py::Float(-0.0), Py::Float(1e300), Py::Float(5e-324), Py::Float(f64::NAN), Py::Float(f64::INFINITY), Py::Bool(true), Py::Bool(false), Py::None, Py::Str("".into()), Py::Str("'".into()), Py::Str("?".into()), Py::Str("a?b'c".into())].iter().enumerate() {
         echo_calls.push(Call { sql: format!("SELECT ? -- boundary {}", j), params: Some(vec![v.clone()]) });
     }
@@ -521,10 +527,27 @@ fn main() {
         let special = vals.iter().any(|v| v.special());
         rep.case(&format!("echo {:?}", c), vals.iter().any(|v| !matches!(v, Py::None)));
         rep.count(if special { "echo_special_float" } else { "echo_finite" });
-        let ok = r["ok"].as_bool() == Some(true) && r["echo_same"].as_bool() == Some(true);
+        let ok = if special {
+            // NaN / ±inf have no SQL literal: binding them must be refused cleanly
+            r["ok"].as_bool() == Some(false) && r["exc"].as_str() == Some("ProgrammingError")
+        } else {
+            r["ok"].as_bool() == Some(true) && r["echo_same"].as_bool() == Some(true)
+        };
         if !ok {
-            let sig = if special { Some("C30/special-float-param") } else { None };
-            rep.fail(FailKind::Oracle, sig, "a bound value does not read back equal", &format!("cursor.execute({:?}, {:?})\nresult: {}", c.sql, vals, r));
+            rep.fail(FailKind::Oracle, None, if special { "a non-finite float parameter is not refused with ProgrammingError" } else { "a bound value does not read back equal (value and bool-ness)" }, &format!("cursor.execute({:?}, {:?})\nresult: {}", c.sql, vals, r));
+        }
+    }
+
+    // ---- the real extension binds exactly the text the model's `substitute` produces: the call with
+    //      parameters and the model's bound text as plain SQL give the same observable result
+    {
+        let real: Vec<Vec<Value>> = run_python(&args.scratch, &Value::Array(text_calls.iter().map(|c| session_json(std::slice::from_ref(c))).collect()), "textreal");
+        let refr: Vec<Vec<Value>> = run_python(&args.scratch, &Value::Array(text_bound.iter().map(|t| json!([{"sql": t}])).collect()), "textref");
+        for ((c, a), b) in text_calls.iter().zip(real.iter()).zip(refr.iter()) {
+            rep.traces_validated += 1;
+            if outcome(&a[0]) != outcome(&b[0]) {
+                rep.fail(FailKind::ModelDiff, None, "the extension does not run the text the model's substitute produces", &format!("cursor.execute({:?}, {:?})\nreal: {}\nmodel's bound text run as plain SQL: {}", c.sql, c.params, outcome(&a[0]), outcome(&b[0])));
+            }
         }
     }
 
@@ -535,14 +558,17 @@ fn main() {
         (vec![Call { sql: "SELECT 7-?".into(), params: Some(vec![Py::Int(-5)]) }], vec!["rows [[[\"int\",\"12\"]]]"], "C30/negative-after-minus"),
         // `SELECT 'a' 'b'` (what separate tokens would give) returns a; the bound text is the single literal 'a''b'
         (vec![Call { sql: "SELECT ?'b'".into(), params: Some(vec![Py::Str("a".into())]) }], vec!["rows [[[\"str\",\"a\"]]]"], "C30/string-before-quote"),
+        (vec![Call { sql: "SELECT \"?\", ? -- ?".into(), params: Some(vec![Py::Int(1)]) }], vec!["raise OperationalError"], "question marks in a delimited identifier and a comment are text"),
+        (vec![Call { sql: "CREATE TABLE b (x BOOLEAN, y INTEGER)".into(), params: None }, Call { sql: "INSERT INTO b VALUES (?, ?)".into(), params: Some(vec![Py::Bool(true), Py::Int(5)]) }, Call { sql: "SELECT x, y FROM b".into(), params: None }], vec!["count 0", "count 1", "rows [[[\"bool\",\"True\"],[\"int\",\"5\"]]]"], "bool into BOOLEAN column"),
     ];
     let probe_real = run_python(&args.scratch, &Value::Array(probes.iter().map(|(c, _, _)| session_json(c)).collect()), "probe");
     for ((calls, want, sig), got) in probes.iter().zip(probe_real.iter()) {
         let o: Vec<String> = got.iter().map(outcome).collect();
         rep.case(&format!("probe {:?}", calls), true);
         rep.count("structure_probe");
+        let _ = sig;
         if o.iter().map(|s| s.as_str()).collect::<Vec<_>>() != *want {
-            rep.fail(FailKind::Oracle, Some(sig), "a value bound in this position does not give the intended statement", &format!("{}\nreal: {:?}\nintended: {:?}", describe(calls), o, want));
+            rep.fail(FailKind::Oracle, None, "a value bound in this position does not give the intended statement", &format!("{}\nreal: {:?}\nintended: {:?}", describe(calls), o, want));
         }
     }
     rep.extra.insert("model_requests".into(), json!(model.requests));
